@@ -263,28 +263,36 @@ where
     /// constraints fail, `None` is returned. Otherwise the state is returned with an updated
     /// constraint store.
     pub fn run_constraints(mut self) -> SResult<U, E> {
-        let mut constraints = self
-            .cstore
-            .iter()
-            .cloned()
-            .collect::<Vec<Rc<dyn Constraint<U, E>>>>();
+        loop {
+            let bindings = self.smap_ref().iter().count();
+            let mut constraints = self
+                .cstore
+                .iter()
+                .cloned()
+                .collect::<Vec<Rc<dyn Constraint<U, E>>>>();
 
-        // Each constraint is first removed from the store and then run against the state.
-        // If the constraint does not want to be removed from the store, it adds itself
-        // back when it is run.
-        for constraint in constraints.drain(..) {
-            self = match self.take_constraint(&constraint) {
-                (unconstrained_state, Some(constraint)) => {
-                    match constraint.run(unconstrained_state) {
-                        Ok(constrained_state) => constrained_state,
-                        Err(error) => return Err(error),
+            // Each constraint is first removed from the store and then run against the state.
+            // If the constraint does not want to be removed from the store, it adds itself
+            // back when it is run.
+            for constraint in constraints.drain(..) {
+                self = match self.take_constraint(&constraint) {
+                    (unconstrained_state, Some(constraint)) => {
+                        match constraint.run(unconstrained_state) {
+                            Ok(constrained_state) => constrained_state,
+                            Err(error) => return Err(error),
+                        }
                     }
-                }
-                (constrained_state, None) => constrained_state, /* Constraint has removed itself. */
-            };
-        }
+                    (constrained_state, None) => constrained_state, /* Constraint has removed itself. */
+                };
+            }
 
-        Ok(self)
+            // A constraint that resolved a domain into a value was outside the store while the
+            // other constraints saw the new value, and the constraints run before it have not
+            // seen it at all: run the constraints again until no new values appear.
+            if self.smap_ref().iter().count() == bindings {
+                return Ok(self);
+            }
+        }
     }
 
     /// Processes extension for disequality constraints.
